@@ -36,7 +36,7 @@ def shift_rows(records, at_row, k):
 
 def unusable(outs):
     """a run that crashed or timed out cannot be used as a metamorphic baseline (C01/C02 handle those)"""
-    return any(rc != 0 or crashed or so.strip().endswith("timeout") for rc, so, crashed in outs)
+    return any(rc != 0 or crashed or "timeout" in so.split("\n") for rc, so, crashed in outs)
 
 
 def write(wd, name, text):
